@@ -106,9 +106,12 @@ func runConv(env *run.Env, g *genCase, wantPrefixes bool) *convOutcome {
 // ---------------------------------------------------------------------
 // NSX
 
+// nsxExternalGroup is switched on by the checks that judge single requests.
+var nsxExternalGroup bool
+
 func genNSX(seed int64) *genCase {
 	rng := rand.New(rand.NewSource(seed))
-	gen := &mnsx.Gen{Rng: rng}
+	gen := &mnsx.Gen{Rng: rng, External: nsxExternalGroup}
 	t := gen.Target()
 	store, ops := gen.Device(t, rng.Intn(5))
 	g := &genCase{Type: "nsx", Seed: seed, Edits: ops, model: store, target: t}
@@ -316,8 +319,8 @@ func scriptShape(script string) string {
 	set := map[string]bool{}
 	for _, l := range strings.Split(script, "\n") {
 		for _, c := range strings.Split(l, "\\N ") {
-			if strings.TrimSpace(c) == "" {
-				continue
+			if strings.TrimSpace(c) == "" || strings.HasPrefix(c, "{") || strings.HasPrefix(c, "null") {
+				continue // empty line or JSON body of an NSX request
 			}
 			h := cmdHead(c)
 			w := strings.Fields(c)
